@@ -70,6 +70,9 @@ func max2(a, b int) int {
 	return b
 }
 
+// Props draws the properties of a node or an edge.
+func Props(t *rapid.T) map[string]any { return props(t) }
+
 func props(t *rapid.T) map[string]any {
 	p := map[string]any{
 		"name":  rapid.SampledFrom(names).Draw(t, "pname"),
@@ -1117,7 +1120,7 @@ func (g *gen) lim() string {
 }
 
 func (g *gen) loweringTemplate() string {
-	k := g.pick("tmpl", 15)
+	k := g.pick("tmpl", 20)
 	g.feat(fmt.Sprintf("template-%d", k))
 	switch k {
 	case 0: // count fast paths
@@ -1196,7 +1199,81 @@ func (g *gen) loweringTemplate() string {
 		if g.chance("t14s", 1, 2) {
 			w += " and " + g.anchor("s")
 		}
-		return "match p = (s" + g.optKind("t14k") + ")-[:" + g.ek() + rapid.SampledFrom([]string{"*0..", "*1..", "*"}).Draw(g.t, "t14r") + "]->(" + g.optKind("t14k2") + ")-[:" + g.eks() + "]->(d" + g.optKind("t14k3") + ") where " + w + " return " + rapid.SampledFrom([]string{"p", "p", "s, d", "nodes(p)"}).Draw(g.t, "t14ret")
+		return "match p = (s" + g.optKind("t14k") + ")-[:" + g.ek() + rapid.SampledFrom([]string{"*0..", "*1..", "*"}).Draw(g.t, "t14r") + "]->(" + g.optKind("t14k2") + ")-[:" + g.eks() + "]->(d" + g.optKind("t14k3") + ") where " + w + rapid.SampledFrom([]string{" return p", " return p", " return s, d", " return nodes(p)", " return relationships(p)", " with relationships(p) as rs return rs", " return size(relationships(p)), nodes(p)", " with nodes(p) as ns return ns"}).Draw(g.t, "t14ret")
+	case 14: // windowed WITH: ORDER BY / SKIP / LIMIT and a WHERE on the same WITH
+		key := rapid.SampledFrom([]string{"n.name, id(n)", "n.value, id(n) desc", "n.name desc, id(n)", "n.value desc, n.name", "id(n)", "id(n) desc", "n.name"}).Draw(g.t, "t15key")
+		win := ""
+		if g.chance("t15skip", 2, 3) {
+			win += fmt.Sprintf(" skip %d", g.pick("t15skipn", 3))
+		}
+		if g.chance("t15lim", 1, 2) {
+			win += fmt.Sprintf(" limit %d", 1+g.pick("t15limn", 3))
+		}
+		where := ""
+		if g.chance("t15where", 2, 3) {
+			where = " where " + g.anchor("n")
+		}
+		return "match (n" + g.optKind("t15k") + ") with n order by " + key + win + where + " return " + rapid.SampledFrom([]string{"n", "n.name", "count(*)", "n.value"}).Draw(g.t, "t15ret")
+	case 15: // a MATCH that restates a variable an OPTIONAL MATCH may have left null, with a null-tolerant predicate
+		pred := rapid.SampledFrom([]string{"coalesce(m.opt, 'zz') = 'zz'", "m.opt is null", "coalesce(m.name, '') = ''", "not (m.flag = true)", "coalesce(m.value, 0) = 0", "m.name = 'a'", "true"}).Draw(g.t, "t16pred")
+		mid := ""
+		if g.chance("t16with", 1, 3) {
+			mid = " with n, m"
+		}
+		return "match (n" + g.optKind("t16k") + ") optional match (n)-[r:" + g.eks() + "]->(m" + g.optKind("t16k2") + ")" + mid + " match (m) where " + pred + " return n, m"
+	case 16: // a leading unbounded expansion followed by two or three fixed steps, selective far end (reversal over an odd / even number of relationships)
+		chain := "(s" + g.optKind("t17k") + ")-[:" + g.ek() + rapid.SampledFrom([]string{"*0..", "*1..", "*"}).Draw(g.t, "t17r") + "]->(a" + g.optKind("t17ka") + ")"
+		steps := 2 + g.pick("t17n", 2)
+		last := "a"
+		for i := 0; i < steps; i++ {
+			last = fmt.Sprintf("x%d", i)
+			if i == steps-1 {
+				last = "d"
+			}
+			arrowL, arrowR := "-", "->"
+			if g.chance("t17dir", 1, 5) {
+				arrowL, arrowR = "<-", "-"
+			}
+			node := "(" + last + g.optKind("t17kn") + ")"
+			if i == steps-1 && g.chance("t17inline", 1, 2) {
+				node = "(" + last + g.optKind("t17kn") + " {name: '" + rapid.SampledFrom(names).Draw(g.t, "t17name") + "'})"
+			}
+			chain += arrowL + "[:" + g.eks() + "]" + arrowR + node
+		}
+		where := ""
+		if !strings.Contains(chain, "{name:") || g.chance("t17w", 1, 3) {
+			where = " where " + g.anchor("d")
+		}
+		return "match " + rapid.SampledFrom([]string{"", "", "p = "}).Draw(g.t, "t17p") + chain + where + " return " + rapid.SampledFrom([]string{"s", "s, d", "s, a, d", "count(*)", "distinct s"}).Draw(g.t, "t17ret")
+	case 17: // an expansion whose fixed suffix passes through (or ends on) a node bound by an earlier MATCH
+		bound := "(c" + g.optKind("t18k") + ")"
+		first := "match " + bound + " where " + g.anchor("c")
+		if g.chance("t18inline", 1, 2) {
+			first = "match (c" + g.optKind("t18k") + " {name: '" + rapid.SampledFrom(names).Draw(g.t, "t18name") + "'})"
+		}
+		exp := "(n" + g.optKind("t18kn") + ")-[:" + g.ek() + rapid.SampledFrom([]string{"*1..", "*0..", "*", "*1..2"}).Draw(g.t, "t18r") + "]->(m)"
+		var tail string
+		switch g.pick("t18shape", 3) {
+		case 0:
+			tail = "-[:" + g.eks() + "]->(c)-[:" + g.eks() + "]->(u" + g.optKind("t18ku") + ")"
+		case 1:
+			tail = "-[:" + g.eks() + "]->(x)-[:" + g.eks() + "]->(c)-[:" + g.eks() + "]->(u)"
+		default:
+			tail = "-[:" + g.eks() + "]->(u" + g.optKind("t18ku") + ")-[:" + g.eks() + "]->(c)"
+		}
+		return first + " match " + exp + tail + " return " + rapid.SampledFrom([]string{"n, u", "distinct n, u", "n", "count(*)", "m, u"}).Draw(g.t, "t18ret")
+	case 18: // an exact range with an inline property map (only translatable through the exact-range lowering)
+		rng := rapid.SampledFrom([]string{"*2..2", "*2", "*1..1", "*1", "*2..2"}).Draw(g.t, "t19r")
+		arrowL, arrowR := "-", "->"
+		if g.chance("t19dir", 1, 4) {
+			arrowL, arrowR = "<-", "-"
+		}
+		pat := "(a" + g.optKind("t19ka") + ")" + arrowL + "[:" + g.eks() + rng + " {" + g.inlineProp() + "}]" + arrowR + "(b" + g.optKind("t19kb") + ")"
+		where := ""
+		if g.chance("t19w", 1, 3) {
+			where = " where " + g.anchor(rapid.SampledFrom([]string{"a", "b"}).Draw(g.t, "t19wv"))
+		}
+		return "match " + rapid.SampledFrom([]string{"", "", "p = "}).Draw(g.t, "t19p") + pat + where + " return " + rapid.SampledFrom([]string{"a, b", "a", "count(*)", "distinct b", "a.name, b.name"}).Draw(g.t, "t19ret")
 	default: // path functions, late path materialisation
 		return "match p = (a" + g.optKind("t13k") + ")-[:" + g.eks() + g.rng() + "]->(b) where " + g.anchor("a") + " return " + rapid.SampledFrom([]string{"nodes(p)", "relationships(p)", "size(relationships(p))", "b, size(nodes(p))", "p, a.name"}).Draw(g.t, "t13f")
 	}
